@@ -369,6 +369,42 @@ def r_drainlit(f):
                 R.fail(b.ident, "extent", "remove_col builds its column cursor over %s, expected from_raw_parts_mut(ptr.add(index), len - num_cols + 1)" % why[:120], b.where(st["span"]))
     if not found:
         R.inconc(b.ident, "no Col literal in remove_col (drain built differently)")
+    # the drain remembers the original dimensions and the removed column: the struct invariant R-RAWBOUNDS assumes in
+    # the destructor (col < num_cols by R-GUARD, num_rows >= 1 by the zero rule, buffer extent = num_rows*num_cols)
+    dom = b.dominators()
+    for bi, si, st in b.stmts():
+        if st["k"] == "assign" and st["rv"]["k"] == "agg" and st["rv"].get("agg") == "adt" and st["rv"]["adt"].split("::")[-1] == "DrainCol":
+            names = st["rv"]["fields_names"]
+            ops = dict(zip(names, st["rv"]["fields"]))
+            for fld, want in (("col", "index"), ("num_cols", "num_cols"), ("num_rows", "num_rows")):
+                if fld not in ops:
+                    continue
+                n += 1
+                e = strip(d.expr(ops[fld]))
+                if want == "index":
+                    ok = e == ("param", 2)
+                    what = "the index parameter"
+                else:
+                    ok = is_dim(e, want)
+                    what = "self.%s read before it is zeroed" % want
+                    if ok and ops[fld]["k"] in ("copy", "move") and not ops[fld]["p"]["proj"]:
+                        # the read must precede the store of 0 to that field
+                        loc = ops[fld]["p"]["local"]
+                        rd = d.single_def(loc)
+                        for _ in range(6):       # chase plain local-to-local copies back to the statement that reads the field
+                            if rd is not None and rd[0] == "stmt" and rd[3]["rv"]["k"] == "use" and rd[3]["rv"]["o"]["k"] in ("copy", "move") and not rd[3]["rv"]["o"]["p"]["proj"]:
+                                loc = rd[3]["rv"]["o"]["p"]["local"]
+                                rd = d.single_def(loc)
+                            else:
+                                break
+                        rpos = (rd[1], rd[2]) if rd is not None and rd[0] == "stmt" else None
+                        for bj, sj, st2 in b.stmts():
+                            if st2["k"] == "assign" and st2["p"]["proj"] and strip(d.place(st2["p"])) == strip(("field", ("deref", ("param", 1)), fi[want])):
+                                if rpos is None or not ((rpos[0] == bj and rpos[1] < sj) or (rpos[0] != bj and rpos[0] in dom.get(bj, set()))):
+                                    ok = False
+                R.inst(b.ident, "DrainCol.%s is %s (%s)" % (fld, what, show(e, pn)), ok)
+                if not ok:
+                    R.fail(b.ident, "drain-field:%s" % fld, "remove_col initialises DrainCol.%s with %s, expected %s: the destructor's compaction would use wrong dimensions" % (fld, show(e, pn), what), b.where(st["span"]))
     # the drain's size_hint is the cursor's
     b2 = f.get("DrainCol as Iterator::size_hint")
     if b2 is not None:
